@@ -99,7 +99,8 @@ var genString = rapid.Custom(func(t *rapid.T) string {
 		// strings that mean something to the code under test wherever they turn up (apiVersion of a
 		// managedFields entry or an owner reference, kind, annotation keys and values, …)
 		return rapid.SampledFrom([]string{"apps/v1", "apps.pingcap.com/v1", "v1", "StatefulSet", "delete-slots", "paused-reconcile", "true", "[1,2]",
-			"apps.pingcap.com/upgrade-to-asts", "controller-revision-hash", "FieldsV1", "Update", "RollingUpdate", "OnDelete", "Parallel"}).Draw(t, "meaningful")
+			"apps.pingcap.com/upgrade-to-asts", "controller-revision-hash", "FieldsV1", "Update", "RollingUpdate", "OnDelete", "Parallel",
+			"a && b > /dev/null", "<none>", "x<y&z>", "\u2028"}).Draw(t, "meaningful")
 	default:
 		return rapid.StringMatching(`[A-Za-z0-9_./:-]{1,10}`).Draw(t, "plain")
 	}
